@@ -42,6 +42,9 @@ func weightsFor(profile string) map[string]int {
 			base["size_burst"] = 2
 			base["gov"] = 3
 		}
+		if profile == "C12" {
+			base["gov"] = 3
+		}
 		if profile == "C13" || profile == "C04" {
 			base["gov"] = 3
 		}
@@ -667,7 +670,7 @@ func (g *Gen) Step() {
 			break
 		}
 		c05 := g.Profile == "C05" || g.Profile == "C05adv" || g.Profile == "C05size"
-		if ((c05 || g.Profile == "C06") && g.R.Intn(4) == 0) || (g.Profile == "C10" && g.R.Intn(2) == 0) {
+		if ((c05 || g.Profile == "C06") && g.R.Intn(4) == 0) || ((g.Profile == "C10" || g.Profile == "C12") && g.R.Intn(2) == 0) {
 			// a listed token is re-listed with other external decimals, with its contract address in another spelling,
 			// or under another hub id while transfers of it may be pending (only where no oracle depends on the
 			// amounts such a change re-interprets: block processing must survive it and stay deterministic; for C10,
@@ -675,6 +678,9 @@ func (g *Gen) Step() {
 			mut := []string{"decimals", "respell", "renumber"}[g.R.Intn(3)]
 			if g.Profile == "C10" {
 				mut = "renumber"
+			}
+			if g.Profile == "C12" {
+				mut = "respell" // the same contract, the same hub id and decimals: what is owed to a sender does not change
 			}
 			g.emit(Intent{T: "gov", Op: "relist", Mut: mut, V: g.R.Intn(len(w.Vals)), Pick: g.R.Intn(9)})
 			g.emit(Intent{T: "block", Dt: 5, N: 1})
